@@ -21,6 +21,10 @@ let () =
     | "C20" -> C01.run_c20
     | "C19" -> C19.run_case
     | "C06" -> C06.run_case
+    | "C14" -> Conn.run_conn "C14"
+    | "C15" -> Conn.run_conn "C15"
+    | "C16" -> Conn.run_conn "C16"
+    | "C17" -> C17.run_case
     | _ -> prerr_endline ("unknown property " ^ prop); exit 2 in
   List.iter
     (fun l ->
